@@ -400,7 +400,9 @@ def _m3_find_real(vc):
     got = raised = None
     try:
         got = ld.fn(request=request, insights=insights)
-    except admission.WebhookError as e:
+    except Exception as e:
+        if _escapes(e):
+            raise
         raised = e
     wanted = [r for r in served if (r.group, r.version, r.plural) == (group, version, plural)]
     vc.ensure('found_by_group_version_plural', (got is wanted[0] and raised is None) if wanted else got is None)
@@ -433,7 +435,9 @@ def _m3_find_contract(vc):
     got = raised = None
     try:
         got = ld.fn(request=request, insights=insights)
-    except admission.WebhookError as e:
+    except Exception as e:
+        if _escapes(e):
+            raise
         raised = e
     vc.ensure('found_by_group_version_plural', len(made) == 1 and not made[0].a and sorted(made[0].kw) == ['group', 'plural', 'version'])
     kw = made[0].kw
@@ -663,3 +667,424 @@ def M3(vc):
     """
     k = vc.nondet(4, 'scenario: find-real / find-contract / labels / webhooks')
     return [_m3_find_real, _m3_find_contract, _m3_labels, _m3_webhooks][k](vc)
+
+
+# =============================================================================================== M4
+import copy            # noqa: E402
+import re              # noqa: E402
+import urllib.parse    # noqa: E402
+
+F_WEBHOOK_NAME = 'F-C18-6'
+# Kubernetes IsDNS1123Subdomain (k8s.io/apimachinery/pkg/util/validation), the rule quoted in _normalize_name's docstring
+DNS1123_SUBDOMAIN = re.compile(r'[a-z0-9]([-a-z0-9]*[a-z0-9])?(\.[a-z0-9]([-a-z0-9]*[a-z0-9])?)*')
+M4_IDS = (
+    # the common forms: function names, sub-handler / field suffixes, dotted paths
+    ['fn', 'validate1', 'check_numbers', 'a_b_c', 'fn/spec.field', 'fn/sub_handler/x', 'mod.fn', 'x9', '0day', 'a-b', 'a.b-c_d/e']
+    # uncommon characters: must be escaped deterministically
+    + ['fn@x', 'a b', 'x:y', 'a%2Fb', 'a?b#c', 'fn(x)', 'a~b', "it's", 'a\tb', 'a+b=c', '@fn', 'fn!', '100%', 'a\\b', 'a"b', '<lambda>']
+    # F-C18-6 class (a): word characters that are not lower-case ASCII
+    + ['Fn', 'validateX', 'MyClass.method', 'füße', 'проверка', 'a/B', 'x²']
+    # F-C18-6 class (b): separators at the edge of a DNS label, empty labels
+    + ['_private', 'trailing_', '__init__', '-x', 'x-', '.x', 'x.', 'a//b', 'a..b', 'a._b', 'a_.b', 'fn/_sub', '/', '_', ''])
+M4_SUFFIXES = ['auto.kopf.dev', 'x', 'my-operator.example.com', '']
+
+
+def m4_name_defect_class(id):
+    """F-C18-6, decided on the INPUT: (a) a word character other than [a-z0-9_] (upper-case, non-ASCII letters/digits),
+    or (b) a '/'- or '.'-separated part of the id that is empty or begins/ends with '_' or '-'."""
+    a = any((ch.isalnum() or ch == '_') and not (ch.isascii() and (ch.islower() or ch.isdigit() or ch == '_')) for ch in id)
+    parts = re.split(r'[/.]', id)
+    b = any(p == '' or p[0] in '_-' or p[-1] in '_-' for p in parts)
+    return a or b
+
+
+M4_CONFIGS = [
+    {},
+    {'url': 'https://host:443'}, {'url': 'https://host:443/'}, {'url': 'https://host/base'}, {'url': 'https://host/base//'},
+    {'url': 'https://host:443', 'caBundle': 'Q0E='},
+    {'url': None, 'service': None},
+    {'service': {'name': 'svc', 'namespace': 'ns'}}, {'service': {'name': 'svc', 'namespace': 'ns', 'path': ''}},
+    {'service': {'name': 'svc', 'namespace': 'ns', 'path': '/base', 'port': 443}, 'caBundle': 'Q0E='},
+    {'url': 'https://host/u', 'service': {'name': 'svc', 'namespace': 'ns', 'path': '/s'}},
+]
+URL_PATH_SAFE = re.compile(r"[A-Za-z0-9\-._~/%]*")      # RFC 3986 unreserved + '/' + percent-escapes: no '?', '#', spaces
+
+
+@bounded('M4', targets=['kopf._core.engines.admission._normalize_name', 'kopf._core.engines.admission._inject_handler_id'],
+         props=['C18'],
+         clauses=['name.valid_dns1123_subdomain', 'name.suffix_appended', 'name.plain_ids_kept', 'name.deterministic',
+                  'url.id_roundtrips', 'url.config_not_mutated', 'url.rest_preserved', 'url.distinct_ids_distinct_endpoints'],
+         universe='_normalize_name: 49 handler ids (function names, sub-handler/field ids, dotted names, 16 with uncommon '
+                  'characters, 7 with upper-case/non-ASCII word characters, 15 with separators at label edges) x 4 suffixes '
+                  '(3 valid DNS names, the empty one); _inject_handler_id: the same ids x 11 client configs (url with/without '
+                  'trailing slashes and base paths, service with/without path, both, neither, explicit nulls, extra keys)',
+         trusted=['urllib.parse.unquote as the decoder the webhook server applies to the path (aiohttp match_info)',
+                  'Kubernetes: webhooks[].name must be a DNS-1123 subdomain; clientConfig.url must carry no query/fragment'])
+def M4(b):
+    """
+    BOUNDED (re.sub with a callback, urllib.parse.quote, copy.deepcopy: C code over strings -- no deductive contract in reach).
+    _normalize_name(id, suffix) -- the docstring's own rule: the result is a lower-case RFC 1123 subdomain ([a-z0-9-.],
+      every label starts and ends alphanumeric) for every id and every valid DNS suffix; it ends with ".<suffix>" (no
+      suffix: the bare name); ids that are already valid labels are kept verbatim ("for beauty"); same input, same output.
+      FINDING F-C18-6: `\\w` in BAD_WEBHOOK_NAME lets upper-case and non-ASCII word characters through, and "_" -> "-" /
+      "/" -> "." produce labels that begin or end with "-" or are empty ("_private" -> "-private.auto.kopf.dev"):
+      Kubernetes rejects the whole managed configuration (422), so NO webhook of the operator is registered.
+      Excused exactly for the ids of m4_name_defect_class().
+    _inject_handler_id(config, id) -- the webhook server routes "<root>/{id:.*}" to webhook=<id>, and WebhooksRegistry
+      (R5) then runs that handler alone: the injected tail must decode back to exactly the id, be a clean URL path (no
+      "?", "#", blanks), follow the root without a double slash (url form), the shared client config must NOT be mutated
+      (it is reused for every handler), every other key is preserved, and different ids give different endpoints.
+    """
+    ln = admission._normalize_name
+    inj = admission._inject_handler_id
+    for id in M4_IDS:
+        for suffix in M4_SUFFIXES:
+            b.case(key=('name', id, suffix), nontrivial=True)
+            try:
+                name = ln(id, suffix)
+                again = ln(id, suffix=suffix)
+                err = None
+            except Exception as e:
+                name = again = None
+                err = f'{type(e).__name__}: {e}'
+            w = lambda: dict(id=id, suffix=suffix, name=name, error=err)
+            ok = err is None and isinstance(name, str)
+            b.check('name.deterministic', ok and name == again, w)
+            if not ok:
+                continue
+            if suffix:
+                b.check('name.suffix_appended', name.endswith('.' + suffix) and len(name) > len(suffix) + 1
+                        or (id == '' and name.endswith(suffix)), w)
+                b.check('name.valid_dns1123_subdomain', DNS1123_SUBDOMAIN.fullmatch(name) is not None and len(name) <= 253, w,
+                        excuse=F_WEBHOOK_NAME if m4_name_defect_class(id) else None)
+            else:
+                b.check('name.suffix_appended', not name.endswith('.') or id.endswith(('.', '/')), w)
+            if re.fullmatch(r'[a-z0-9]+(-[a-z0-9]+)*', id):
+                b.check('name.plain_ids_kept', name == (f'{id}.{suffix}' if suffix else id), w)
+    for config in M4_CONFIGS:
+        seen = {}
+        for id in M4_IDS:
+            b.case(key=('url', repr(config), id), nontrivial=True)
+            before = copy.deepcopy(config)
+            try:
+                out = inj(config, id)
+                err = None
+            except Exception as e:
+                out, err = None, f'{type(e).__name__}: {e}'
+            w = lambda: dict(config=before, id=id, result=out, error=err)
+            if not b.check('url.config_not_mutated', err is None and config == before and out is not config
+                           and (out.get('service') is None or out['service'] is not config.get('service')), w):
+                config.clear(); config.update(copy.deepcopy(before))
+                if err is not None:
+                    continue
+            ok = True
+            url, svc = before.get('url'), before.get('service')
+            if url is not None:
+                root = url.rstrip('/')
+                got = out.get('url')
+                tail = got[len(root):] if isinstance(got, str) and got.startswith(root) else None
+                ok = ok and tail is not None and tail.startswith('/') and urllib.parse.unquote(tail[1:]) == id \
+                    and URL_PATH_SAFE.fullmatch(tail) is not None
+            else:
+                ok = ok and out.get('url') is None and ('url' in out) == ('url' in before)
+            if svc is not None:
+                root = svc.get('path', '')
+                got = (out.get('service') or {}).get('path')
+                tail = got[len(root):] if isinstance(got, str) and got.startswith(root) else None
+                ok = ok and tail is not None and tail.startswith('/') and urllib.parse.unquote(tail[1:]) == id \
+                    and URL_PATH_SAFE.fullmatch(tail) is not None
+            else:
+                ok = ok and out.get('service') is None and ('service' in out) == ('service' in before)
+            b.check('url.id_roundtrips', ok, w)
+            rest_in = {k: v for k, v in before.items() if k not in ('url', 'service')}
+            rest_out = {k: v for k, v in out.items() if k not in ('url', 'service')}
+            svc_in = {k: v for k, v in (svc or {}).items() if k != 'path'}
+            svc_out = {k: v for k, v in (out.get('service') or {}).items() if k != 'path'}
+            b.check('url.rest_preserved', rest_in == rest_out and svc_in == svc_out, w)
+            if url is not None or svc is not None:
+                key = (out.get('url'), (out.get('service') or {}).get('path'))
+                b.check('url.distinct_ids_distinct_endpoints', key not in seen, lambda: dict(config=before, ids=[seen.get(key), id], endpoint=key))
+                seen[key] = id
+
+
+# =============================================================================================== M2
+from kopf._core.actions import execution, lifecycles      # noqa: E402
+
+_ABSENT = object()
+
+
+class _Review(Exception):
+    """any failure of the review's own processing (a callee's exception)"""
+
+
+def _m2_dict(vc, key, payload, label):
+    """request.<key>: absent / null / an empty mapping / a non-empty mapping (fresh objects, compared by identity)"""
+    k = vc.nondet(4, f'{label}: absent / null / {{}} / non-empty')
+    val = [_ABSENT, None, {}, {'metadata': {'name': label, 'uid': 'uid-1'}, 'spec': {'x': 1}}][k]
+    if val is not _ABSENT:
+        payload[key] = val
+    return None if val is _ABSENT else val
+
+
+@harness('M2', targets='kopf._core.engines.admission.serve_admission_request', props=['C18', 'C14'],
+         clause_props={'creation_memo_discarded': ['C14', 'C18'], 'review_does_not_preempt_listing': ['C14']},
+         clauses=['resource_by_find_resource', 'missing_data_error', 'body_is_object_else_old_object', 'old_new_diff',
+                  'cause_carries_the_review', 'memo_of_the_reviewed_object', 'creation_memo_discarded', 'review_does_not_preempt_listing',
+                  'handlers_by_webhook_registry', 'executed_once_all_at_once_no_retries', 'response_from_those_outcomes',
+                  'patch_taken_after_the_handlers', 'failures_escalate'],
+         canaries=['canary.never_raises', 'canary.always_ephemeral'],
+         trusted=['bodies.Body(raw) wraps raw; diffs.diff(old, new), patches.Patch(body=).as_json_patch() (A5), '
+                  'loggers.LocalObjectLogger(body=, settings=), progression.State.from_scratch().with_handlers(h): by their '
+                  'signatures -- recorded and handed on; causes.WebhookCause is the REAL dataclass',
+                  'MemoGetter.recall_memo by contract V1: returns the memo of the stored memory or of a new one, which is stored iff not ephemeral'])
+def M2(vc):
+    """
+    serve_admission_request: ONE admission review, end to end, against the contracts of its callees -- find_resource (M3),
+    ResourceMemories.recall_memo (V1/V2), WebhooksRegistry.get_handlers (R5), execute_handlers_once (X2), Patch.as_json_patch
+    (A5), build_response (M1).  Domain: request.object / oldObject / userInfo each absent, null, {} or non-empty;
+    subResource absent / null / any string; operation absent or any of the four; dryRun absent / null / false / true;
+    headers/sslpeer/webhook/reason given or not; find_resource returns or raises; the execution returns or is cancelled.
+      resource_by_find_resource    the cause's resource is what find_resource(request=, insights=) gives; its errors
+                                   (UnknownResourceError / AmbiguousResourceError) propagate, nothing else happens then
+      missing_data_error           userInfo null/absent, or both objects null/absent  =>  MissingDataError, nothing executed;
+                                   EMPTY mappings are data, not absence
+      body_is_object_else_old_object   the reviewed body is `object` whenever it is present (even empty), else `oldObject`
+                                   (DELETE reviews carry only the old one)
+      old_new_diff                 cause.old / cause.new wrap oldObject / object (None when absent), cause.diff = diff(old, new)
+      cause_carries_the_review     operation, subresource, userinfo, dryrun (truthiness of dryRun), headers / sslpeer
+                                   (an empty mapping when not given), webhook id and type hints, indices, a fresh empty
+                                   warnings list, a patch bound to the reviewed body
+      memo_of_the_reviewed_object  recall_memo(<the reviewed raw body>, memobase=<the operator's>) exactly once; its memo is cause.memo
+      creation_memo_discarded      docs/admission.rst "In-memory containers": for CREATE the memo is created and discarded (ephemeral)
+      review_does_not_preempt_listing   C14: serving a review must not leave behind a NEW remembered memory for an object the
+                                   watch-stream has not listed yet (it would be un-noticed: resume handlers lost).  KNOWN
+                                   FINDING F-C14-1 (see known_findings.d/c02.json): violated for every operation but CREATE
+                                   when the object has no memory yet; excused exactly for that class.
+      handlers_by_webhook_registry registry._webhooks.get_handlers(<that cause>) exactly once
+      executed_once_all_at_once_no_retries   execute_handlers_once exactly once with exactly those handlers, that cause,
+                                   lifecycle all_at_once, a state made from scratch for those handlers (nothing persisted,
+                                   nothing resumed) and default_errors=PERMANENT (docs "Admission errors": no retries)
+      response_from_those_outcomes build_response(request=<the review>, outcomes=<what the execution returned>,
+                                   warnings=<the cause's list, as the handlers left it>, jsonpatch=<the cause's patch>) is returned
+      patch_taken_after_the_handlers   the JSON patch is computed from cause.patch AFTER the handlers ran
+      failures_escalate            an exception out of a callee (cancellation) propagates; no response is fabricated
+    """
+    payload = {'uid': 'review-1', 'resource': {'group': 'kopf.dev', 'version': 'v1', 'resource': 'kopfexamples'}}
+    request = {'apiVersion': 'admission.k8s.io/v1', 'kind': 'AdmissionReview', 'request': payload}
+    # three families of cases (the dimensions inside a family are fully crossed):
+    #   data:      object x oldObject x userInfo, each absent / null / {} / non-empty
+    #   context:   a well-formed review x subResource/headers/sslpeer/webhook/reason hints x #selected handlers x execution outcome
+    #   resource:  find_resource raises
+    family = ['data', 'context', 'resource'][vc.nondet(3, 'family of cases')]
+    find_outcome = vc.nondet(2, 'find_resource: unknown / ambiguous') + 1 if family == 'resource' else 0
+    if family == 'data':
+        new_raw = _m2_dict(vc, 'object', payload, 'object')
+        old_raw = _m2_dict(vc, 'oldObject', payload, 'oldObject')
+        ui_k = vc.nondet(4, 'userInfo: absent / null / {} / non-empty')
+    else:
+        shape = vc.nondet(3, 'review of: a creation (object) / a deletion (oldObject, object null) / an update (both)')
+        new_raw = old_raw = None
+        if shape != 1:
+            new_raw = payload['object'] = {'metadata': {'name': 'new', 'uid': 'uid-1'}, 'spec': {'x': 2}}
+        else:
+            payload['object'] = None
+        if shape != 0:
+            old_raw = payload['oldObject'] = {'metadata': {'name': 'old', 'uid': 'uid-1'}, 'spec': {'x': 1}}
+        ui_k = 3
+    userinfo = [_ABSENT, None, {}, {'username': 'admin', 'groups': ['system:masters']}][ui_k]
+    if userinfo is not _ABSENT:
+        payload['userInfo'] = userinfo
+    userinfo = None if userinfo is _ABSENT else userinfo
+    variant = vc.nondet(3, 'subResource+context: absent,no hints / null,some hints / a string,all hints') if family == 'context' else 2
+    subresource = None
+    if variant == 1:
+        payload['subResource'] = None
+    elif variant == 2:
+        subresource = payload['subResource'] = vc.str('subResource')
+    headers = [None, {}, {'Host': 'h'}][variant]
+    sslpeer = [None, {'subject': 1}, {}][variant]
+    webhook = [None, None, 'h1'][variant]
+    reason = [None, WT.MUTATING, WT.VALIDATING][variant]
+    # operation: absent/null or any of the four; dryRun: absent/null, false, true -- kept symbolic (vc.fin); whether a
+    # None stands for an absent key or an explicit null follows the family (both read as None through .get(key))
+    operation = vc.fin('operation', [None] + list(OPS))
+    dry = vc.fin('dryRun', [None, False, True])
+    nulls_explicit = family != 'data'
+
+    class Payload(dict):
+        """the review payload: `operation` and `dryRun` are looked up lazily so that they stay symbolic"""
+        def get(self, key, default=None):
+            fin = {'operation': operation, 'dryRun': dry}.get(key)
+            if fin is None:
+                return dict.get(self, key, default)
+            if default is None:
+                return fin
+            v = resolve(fin)
+            return default if v is None and not nulls_explicit else v
+    request['request'] = payload = Payload(payload)
+
+    settings, memobase, insights, indices = Opaque('settings'), Opaque('memobase'), Opaque('insights'), Opaque('indices')
+    tr = vc.trace
+    resource = Opaque('resource')
+    thrown = []
+
+    def find_resource(**kw):
+        vc.emit('find_resource', kw)
+        if find_outcome:
+            thrown.append([admission.UnknownResourceError, admission.AmbiguousResourceError][find_outcome - 1]('resource'))
+            raise thrown[-1]
+        return resource
+    present = vc.bool('the object already has a memory')
+    memo = Opaque('memo')
+    ghost = Opaque('ghost', stored_new=False)
+
+    class Memories(admission.MemoGetter):
+        async def recall_memo(self, raw_body, *, memobase=None, ephemeral=False, **extra):
+            vc.emit('recall_memo', raw_body, memobase, ephemeral, extra)
+            await suspend('recall_memo')
+            ghost.stored_new = And(Not(present), Not(ephemeral), Not(extra.get('noticed_by_listing', False)))
+            return memo
+
+    class Body:
+        def __init__(self, raw):
+            self.raw = raw
+            vc.emit('Body', self)
+
+    def diff(a, b):
+        d = Opaque('diff', args=(a, b)); vc.emit('diff', d); return d
+
+    class Patch:
+        def __init__(self, *a, body=None, **kw):
+            self.args, self.body, self.kw = a, body, kw
+            vc.emit('Patch', self)
+
+        def as_json_patch(self, *a, **kw):
+            j = Opaque('jsonpatch', of=self, args=(a, kw)); vc.emit('as_json_patch', j); return j
+
+    def LocalObjectLogger(**kw):
+        lg = NullLogger(); lg.kw = kw; return lg
+    selected = [Opaque('handler-1', id='h1'), Opaque('handler-2', id='h2')][:vc.nondet(3, '#selected handlers') if family == 'context' else 1]
+
+    class Webhooks:
+        def get_handlers(self, cause, *a, **kw):
+            vc.emit('get_handlers', cause, a, kw); return selected
+    registry = Opaque('registry', _webhooks=Webhooks())
+
+    class State:
+        def __init__(self, how, hs=None): self.how, self.hs = how, hs
+        @classmethod
+        def from_scratch(cls, *a, **kw): return cls('scratch' if not a and not kw else 'scratch+args')
+        @classmethod
+        def from_storage(cls, *a, **kw): return cls('storage')
+        def with_handlers(self, hs): return State(self.how + '+handlers', hs)
+        def with_purpose(self, *a, **kw): return State(self.how + '+purpose', self.hs)
+    outcomes = Opaque('outcomes')
+    exec_outcome = vc.nondet(2, 'execute_handlers_once: returns / cancelled') if family == 'context' else 0
+
+    async def execute_handlers_once(**kw):
+        vc.emit('execute', kw, list(kw['cause'].warnings))
+        await suspend('execute_handlers_once')
+        kw['cause'].warnings.append('w1')            # handlers speak through the cause's mutable fields
+        kw['cause'].warnings.append('w2')
+        if exec_outcome:
+            thrown.append(asyncio.CancelledError()); raise thrown[-1]
+        vc.emit('executed')
+        return outcomes
+    response = Opaque('response')
+
+    def build_response(**kw):
+        vc.emit('build_response', kw, list(kw.get('warnings') or [])); return response
+    vc.used('admission.find_resource', 'M3'); vc.used('admission.build_response', 'M1')
+    vc.used('registries.WebhooksRegistry.get_handlers', 'R5'); vc.used('execution.execute_handlers_once', 'X2')
+    vc.used('inventory.ResourceMemories.recall_memo', 'V1'); vc.used('patches.Patch.as_json_patch', 'A5')
+    ld = vc.load('kopf._core.engines.admission', 'serve_admission_request', stubs={
+        'find_resource': find_resource, 'bodies.Body': Body, 'diffs.diff': diff, 'patches.Patch': Patch,
+        'loggers.LocalObjectLogger': LocalObjectLogger, 'progression.State': State,
+        'execution.execute_handlers_once': execute_handlers_once, 'build_response': build_response})
+    kwargs = dict(settings=settings, memories=Memories(), memobase=memobase, registry=registry, insights=insights, indices=indices)
+    if variant:
+        kwargs.update(headers=headers, sslpeer=sslpeer, webhook=webhook, reason=reason)
+    got = raised = None
+    try:
+        got = vc.drive(ld.fn(request, **kwargs))
+    except BaseException as e:
+        if _escapes(e):
+            raise
+        raised = e
+    names = [ev[0] for ev in tr]
+    vc.canary('canary.never_raises', raised is None)
+    # ---- the resource
+    finds = [ev for ev in tr if ev[0] == 'find_resource']
+    vc.ensure('resource_by_find_resource', len(finds) == 1 and finds[0][1].get('request') is request
+              and finds[0][1].get('insights') is insights and len(finds[0][1]) == 2)
+    if find_outcome:
+        vc.ensure('resource_by_find_resource', raised is thrown[0] and names == ['find_resource'])
+        return ('unknown-resource', type(raised).__name__)
+    # ---- missing data
+    raw = new_raw if new_raw is not None else old_raw
+    missing = userinfo is None or raw is None
+    vc.ensure('missing_data_error', isinstance(raised, admission.MissingDataError) == missing)
+    if missing:
+        vc.ensure('missing_data_error', not any(n in names for n in ('recall_memo', 'get_handlers', 'execute', 'build_response')))
+        return ('missing', type(raised).__name__)
+    # ---- the memo
+    recalls = [ev for ev in tr if ev[0] == 'recall_memo']
+    vc.ensure('memo_of_the_reviewed_object', len(recalls) == 1 and recalls[0][1] is raw and recalls[0][2] is memobase)
+    ephemeral = recalls[0][3] if recalls else False
+    vc.ensure('creation_memo_discarded', Implies(Eq(operation, 'CREATE'), ephemeral))
+    vc.ensure('review_does_not_preempt_listing', Not(ghost.stored_new),
+              excuse={'F-C14-1': And(Not(Eq(operation, 'CREATE')), Not(present))})
+    vc.canary('canary.always_ephemeral', ephemeral)
+    # ---- the cause
+    gets = [ev for ev in tr if ev[0] == 'get_handlers']
+    vc.ensure('handlers_by_webhook_registry', len(gets) == 1 and isinstance(gets[0][1], causes.WebhookCause) and not gets[0][2] and not gets[0][3])
+    if len(gets) != 1 or not isinstance(gets[0][1], causes.WebhookCause):
+        return ('no-cause',)
+    cause = gets[0][1]
+    vc.ensure('resource_by_find_resource', cause.resource is resource)
+    vc.ensure('memo_of_the_reviewed_object', cause.memo is memo)
+    vc.ensure('body_is_object_else_old_object', isinstance(cause.body, Body) and cause.body.raw is raw)
+    vc.ensure('old_new_diff', (cause.old is None) if old_raw is None else (isinstance(cause.old, Body) and cause.old.raw is old_raw))
+    vc.ensure('old_new_diff', (cause.new is None) if new_raw is None else (isinstance(cause.new, Body) and cause.new.raw is new_raw))
+    vc.ensure('old_new_diff', getattr(cause.diff, 'args', None) is not None and cause.diff.args[0] is cause.old and cause.diff.args[1] is cause.new)
+    vc.ensure('cause_carries_the_review', Eq(cause.operation, operation))
+    vc.ensure('cause_carries_the_review', (cause.subresource is None) if subresource is None else Eq(cause.subresource, subresource))
+    vc.ensure('cause_carries_the_review', cause.userinfo is userinfo)
+    vc.ensure('cause_carries_the_review', isinstance(cause.dryrun, (bool, SBool)) and Iff(cause.dryrun, Eq(dry, True)))
+    vc.ensure('cause_carries_the_review', cause.headers == (headers or {}) and cause.sslpeer == (sslpeer or {})
+              and cause.headers is not None and cause.sslpeer is not None)
+    vc.ensure('cause_carries_the_review', cause.webhook == webhook and cause.reason is reason and cause.indices is indices)
+    vc.ensure('cause_carries_the_review', isinstance(cause.patch, Patch) and cause.patch.body is cause.body and not cause.patch.args)
+    vc.ensure('cause_carries_the_review', getattr(cause.logger, 'kw', {}).get('body') is cause.body and cause.logger.kw.get('settings') is settings)
+    # ---- the execution
+    execs = [ev for ev in tr if ev[0] == 'execute']
+    vc.ensure('executed_once_all_at_once_no_retries', len(execs) == 1)
+    if len(execs) != 1:
+        return ('no-execution',)
+    kw, warnings_before = execs[0][1], execs[0][2]
+    vc.ensure('cause_carries_the_review', isinstance(cause.warnings, list) and warnings_before == [])
+    vc.ensure('executed_once_all_at_once_no_retries', kw.get('handlers') is selected and kw.get('cause') is cause
+              and kw.get('settings') is settings and kw.get('lifecycle') is lifecycles.all_at_once)
+    st = kw.get('state')
+    vc.ensure('executed_once_all_at_once_no_retries', isinstance(st, State) and st.how == 'scratch+handlers' and st.hs is selected)
+    vc.ensure('executed_once_all_at_once_no_retries', kw.get('default_errors') is execution.ErrorsMode.PERMANENT)
+    vc.ensure('executed_once_all_at_once_no_retries', set(kw) <= {'handlers', 'cause', 'settings', 'lifecycle', 'state', 'default_errors'}
+              or kw.get('extra_context') is None)
+    vc.ensure('handlers_by_webhook_registry', names.index('get_handlers') < names.index('execute')
+              and names.index('recall_memo') < names.index('get_handlers'))
+    if exec_outcome:
+        vc.ensure('failures_escalate', raised is thrown[0] and 'build_response' not in names and got is None)
+        return ('cancelled',)
+    vc.ensure('failures_escalate', raised is None)
+    # ---- the response
+    builds = [ev for ev in tr if ev[0] == 'build_response']
+    vc.ensure('response_from_those_outcomes', len(builds) == 1 and got is response)
+    if len(builds) != 1:
+        return ('no-response',)
+    bkw, bwarnings = builds[0][1], builds[0][2]
+    vc.ensure('response_from_those_outcomes', bkw.get('request') is request and bkw.get('outcomes') is outcomes and len(bkw) == 4)
+    vc.ensure('response_from_those_outcomes', bwarnings == ['w1', 'w2'] and bwarnings == list(cause.warnings))
+    j = bkw.get('jsonpatch')
+    vc.ensure('response_from_those_outcomes', getattr(j, 'of', None) is cause.patch and j.args == ((), {}))
+    vc.ensure('patch_taken_after_the_handlers', names.count('as_json_patch') == 1 and names.index('executed') < names.index('as_json_patch'))
+    return ('response', len(selected))
